@@ -16,6 +16,9 @@ THEOREMS = [
     "BeyondVerif.C12.digit_corruption_rejected",
     "BeyondVerif.C12.epoch_roundtrip",
     "BeyondVerif.C12.too_few_lines_rejected",
+    "BeyondVerif.C12.unfloat_float_id",
+    "BeyondVerif.C12.unfloat_float_zero",
+    "BeyondVerif.C12.float_unfloat_id",
     "BeyondVerif.C12.from_string_yields_valid_entries",
     "BeyondVerif.C12.from_string_framed_exact",
     "BeyondVerif.C12.reference_tles_roundtrip",
